@@ -57,25 +57,25 @@ for line in subprocess.run(['/verif/bin/emucheck','list'],capture_output=True,te
         ACTUAL[parts[0]]=','.join(sorted(seen))
 EXTRA = {
  "C01": "; no row object reused across the entries of a request; cell scans / column lookups do not rely on an order that does not hold mid-request; timestamps from the injectable clock; whole-millisecond test on every accepting path",
- "C02": "; the content file is replaced by a truncating write; upload ids are the atomic increment's own result; every mutator in its matching critical section",
- "C03": "; the range-merge fold step is computed from its accumulator; the trailing row of SampleRowKeys is decided for every row; the scan variant agrees with which range ends are present; no nil bound; no per-range scratch value carried over; a sent chunk buffer is not recycled",
- "C04": "; no in-place mutation of objects handed out by the store (a rejected request leaves sources untouched); conditions evaluated derive from the request on every path (backward flow); no per-source condition carried over from the previous source",
- "C05": "; the error of a nested filter evaluation is propagated; copyRow gives copies their own cell slices; in-place compactions are truncated before use; isEmpty answers on the evidence of a cell",
+ "C02": "; the content file is replaced by a truncating write; upload ids are the atomic increment's own result; every mutator in its matching critical section; the declared Content-Length never bounds a body read (gzip bodies are longer than declared)",
+ "C03": "; the range-merge fold step is computed from its accumulator; the trailing row of SampleRowKeys is decided for every row; the scan variant agrees with which range ends are present; no nil bound; no per-range scratch value carried over; a sent chunk buffer is not recycled; the whole-table default is selected on the request, not on the normalised range list; the scan callback passes a row over only because of the row itself",
+ "C04": "; no in-place mutation of objects handed out by the store (a rejected request leaves sources untouched); conditions evaluated derive from the request on every path (backward flow); no per-source condition carried over from the previous source; every compose source has its own precondition evaluated on every path through the sources loop",
+ "C05": "; the error of a nested filter evaluation is propagated; copyRow gives copies their own cell slices; in-place compactions are truncated before use; isEmpty answers on the evidence of a cell; the presence of a column/value range bound is decided by the oneof case, not by the emptiness of its bytes",
  "C06": "; GC never writes back a stale row; copyRow depth; the ReadModifyWriteRow timestamp depends on the newest existing cell",
- "C07": "; the locked object is not read back after its lock was released; no nested object locks; check-then-act on the bucket map under one hold; stored memory-store records are never assigned in place",
+ "C07": "; the locked object is not read back after its lock was released; no nested object locks; check-then-act on the bucket map under one hold; stored memory-store records are never assigned in place; nothing written under the object lock derives from a read of that object made before the lock; mutators reached through narrower interfaces are still checked",
  "C08": "; the optional DeleteTableMeta is in the value method set of a storage used as a value; registry check-then-act under one hold; a created table starts from a wiped directory and Clear reopens with nuke; walk callbacks examine their error first",
- "C09": "; directory pruning stops strictly below the bucket directory; Copy does not mix source and destination names; any return on an unreadable sidecar excludes not-exist first; siblings use the same named parameters; scrubbed fields are recomputed; directory entries never reach the per-object listing logic",
+ "C09": "; directory pruning stops strictly below the bucket directory; Copy does not mix source and destination names; any return on an unreadable sidecar excludes not-exist first; siblings use the same named parameters; scrubbed fields are recomputed; directory entries never reach the per-object listing logic; filestore.Add creates the object's directory on every writing path",
  "C10": "; the locked object is not read back after its lock was released; every mutator in its matching critical section; stored records immutable",
- "C11": "; recorded names carry the requested prefix; walk callback examines its error first; sibling parameter use; directory entries never reach the per-object listing logic",
+ "C11": "; recorded names carry the requested prefix; walk callback examines its error first; sibling parameter use; directory entries never reach the per-object listing logic; the prefix is never on the inclusive side of the cursor comparison",
  "C12": "; the branch selector is an emptiness test on every path; cells are never edited in place; copyRow depth; no row deletion from inside an iteration; isEmpty answers on the evidence of a cell",
  "C13": "; timestamps from the injectable clock; column lookups do not rely on qualifier order; appendOrReplaceCell uniqueness conditions; read and write-back of every row RPC under one hold; the written timestamp depends on the newest existing cell",
  "C14": "; registry check-then-act under one hold; no nil scan bound; rows closed only at shutdown; the ListTables parent prefix includes the /tables/ separator",
  "C15": "; no copy loop over a just-made map; no nested object locks; decode target is not a shallow copy of a store object; stored records immutable",
- "C16": "; the write-back flag of a GC pass is monotone over the columns; GC cut-offs from the injectable clock; every row store stamps the write-activity clock; engine methods have only their own effect and take no locks",
+ "C16": "; the write-back flag of a GC pass is monotone over the columns; GC cut-offs from the injectable clock; every row store stamps the write-activity clock; engine methods have only their own effect and take no locks; a GC pass takes its rules from the live family definitions, not from a second copy",
  "C17": "; dispatch shape; engine contracts (reopen passes nuke, Create wipes, single-effect methods, no engine locks, Close only at shutdown)",
- "C18": "; no value-receiver field assignment in the chunk builder; read and write-back of the row RPCs under one hold; every table.rows access under the lock; no stale GC write-back; store only on success; engines take no locks; rows closed only at shutdown; sent buffers not recycled",
+ "C18": "; no value-receiver field assignment in the chunk builder; read and write-back of the row RPCs under one hold; every table.rows access under the lock; no stale GC write-back; store only on success; engines take no locks; rows closed only at shutdown; sent buffers not recycled; the scan callback passes a row over only because of the row itself",
  "C19": "; Run cannot return on the acquired edge without the deferred unlock; decrement and eviction in one hold",
- "C20": "; Content-Length agrees with every body write; every table is built around a non-nil family map; guarded-map check-then-act, nested object locks, use after ownership transfer, carried-over scratch values, engine locks / Close, in-place record updates",
+ "C20": "; Content-Length agrees with every body write; every table is built around a non-nil family map; guarded-map check-then-act, nested object locks, use after ownership transfer, carried-over scratch values, engine locks / Close, in-place record updates; a batch answers every parsed part (dispatch, part creation and response write on every path of an iteration, a recorder per part, lists in lockstep, closing boundary); no mutex is acquired again while it is held, through calls, interface dispatch or callbacks; elements of JSON-decoded pointer lists are nil-checked",
 }
 checks=[]
 for p in props:
@@ -110,7 +110,7 @@ json.dump(m,open('/verif/MANIFEST.json','w'),indent=1)
 FIX_PROPS={
  '659fa0e':'C17','d9b4edd':'C06','8e362d8':'C14','1a3ec83':'C05','d074582':'C05','4dbe7f4':'C03','ff68d64':'C16','739e5da':'C20','fbd49ff':'C20',
  'b6aac37':'C16','7524623':'C08','743ce43':'C15','d247afc':'C20','2f0bb4d':'C15','53bf577':'C20','c70c12b':'C07','3c0b511':'C10','9016315':'C07',
- '4ba9f80':'C11','2ba22ea':'C20','e54c65e':'C02','eced17a':'C11','b877043':'C07'}
+ '4ba9f80':'C11','2ba22ea':'C20','e54c65e':'C02','eced17a':'C11','b877043':'C07','7c7d223':'C15'}
 log=subprocess.run(['git','-C','/repo','log','--format=%h %s','1ff383a..HEAD'],capture_output=True,text=True).stdout.strip().splitlines()
 k=json.load(open('/verif/known_findings.json'))
 k['fixed']=[]
